@@ -134,12 +134,20 @@ type (
 		creq    *clientReq
 		session *shareSession // session at registration time; stale if overwritten
 		in      []*partData
-		ackTs   []ackTopic // piggybacked ack topics from the initial request
+		ackTs   []ackTopic    // piggybacked ack topics from the initial request
+		ackErrs []shareAckErr // per-partition results of those acks that failed, replayed into the final response
 		cb      func()
 		t       *time.Timer
 
 		once    sync.Once
 		cleaned bool
+	}
+
+	// shareAckErr is a failed piggybacked acknowledgement of a parked ShareFetch.
+	shareAckErr struct {
+		tid uuid
+		p   int32
+		ec  int16
 	}
 
 	// tpKey identifies a (topicID, partition) pair for response dedup.
